@@ -12,14 +12,18 @@ CLAIMS = {
         "compiler-invariant partial operations (program[pc], call_stack.pop) are listed, not decided.",
     },
     "C02": {
-        "text": "Decides the operand-order clause: every VM arm reads its last register first and pops anonymous operands after register reads, which "
-        "together with left-to-right pushing is what makes evaluation left-to-right (OP-ORDER). Does not decide the translation as a whole.",
-        "note": "Necessary condition only; values computed are not decided.",
+        "text": "Decides the operator pipeline: for every operator of operators.md the composed chain lexer char -> token -> BinaryOperator -> (operand type -> assembly instruction | "
+        "interface method) -> VM arm ends in the documented machine operation with operands in (left, right) order; `and`/`or` lowering is abstractly executed for both values of the left "
+        "operand and must skip the right operand exactly when the reference says so; unary minus and compound assignment reuse the binary operator's instruction (PIPE); every VM arm reads its "
+        "last register first, which with left-to-right pushing makes evaluation left-to-right (OP-ORDER). Does not decide the translation of statements and control flow as a whole.",
+        "note": "Necessary conditions only; the tables are re-extracted from lexer.rs, parse.rs, translate_bytecode.rs, assembly.rs and vm.rs on every run.",
     },
     "C05": {
         "text": "Decides that literal-operand (Imm) instructions behave like their register siblings: for each (X, XImm) pair produced by the optimiser, "
         "the two VM arms have equal stored expressions and equal exact outcome tables (error kind per ordering case), differing only in the source of operand 2 (IMM-SIBLING); "
-        "operand read order required by the peephole rewrites (OP-ORDER).",
+        "each peephole predicate accepts only instructions its rewriter handles and rewriters change exactly the replaced slot (PEEP-TABLES); each register/immediate/destination rewrite is valid "
+        "for the VM arm's actual stack-access order, and each concrete two-instruction rewrite has the same (stack, jump, locals) effect as its replacement when the arms' event lists are run on an "
+        "abstract stack (PEEP-SOUND); every constant fold uses the arm's operator and is declined on every operand ordering case where the arm raises an error (FOLD).",
         "note": "Pairs are extracted from optimize_bytecode.rs and assembly.rs on every run; floor 22 pairs.",
     },
     "C08": {
